@@ -62,7 +62,13 @@ def theorems(path, only=None, indent="  "):
 def main():
     pid, header = sys.argv[1], open(sys.argv[2]).read()
     body, prints, top, topr, rmods = [], [], [], [], []
+    tails = []
     for spec in sys.argv[3:]:
+        if spec.startswith("tail:"):              # a hand-written block of instance theorems (own imports), appended verbatim
+            txt = open(spec[5:]).read()
+            tails.append(txt)
+            prints += ["Print Assumptions %s." % n for n in re.findall(r"^Theorem (\w+)", txt, flags=re.M)]
+            continue
         is_topr = spec.startswith("topR:")        # top-level theorems stated in R_scope (real arithmetic)
         if is_topr:
             spec = "top:" + spec[5:]
@@ -95,6 +101,7 @@ def main():
         # statements above resolve their implicit number type
         print("From Coq Require Import Reals.\nFrom Demes Require Import Base.NumR Model.SizeAt Proofs.SizeBetweenR %s.\nLocal Open Scope R_scope.\n" % " ".join(rmods))
         print("\n".join(topr))
+    print("\n".join(tails))
     print("\n".join(prints))
 
 
